@@ -47,10 +47,39 @@ def strict(a, b):
         return (a != a and b != b) or (a == b and math.copysign(1, a) == math.copysign(1, b))
     if type(a).__name__ == 'Decimal':
         return str(a) == str(b)
+    if isinstance(a, Rec):
+        return a.v == b.v
     return a == b
 
 
+class Rec(object):
+    """a record with the usual hand-written __eq__ (reads other's attribute without a type check) and a matching __hash__"""
+
+    def __init__(self, v):
+        self.v = v
+
+    def __eq__(self, other):
+        return self.v == other.v
+
+    def __ne__(self, other):
+        return self.v != other.v
+
+    def __hash__(self):
+        return hash(self.v)
+
+    def __repr__(self):
+        return 'Rec(%r)' % (self.v,)
+
+    def __deepcopy__(self, memo):
+        return self
+
+
+RECS = [['rec', 0], ['rec', 1], ['rec', 2], ['rec', 1], ['rec', 0]]
+
+
 def dec(v):
+    if isinstance(v, list) and v and v[0] == 'rec':
+        return Rec(v[1])
     if isinstance(v, list) and v and v[0] == 'dec':
         import decimal
         return decimal.Decimal(v[1])
@@ -61,7 +90,7 @@ def dec(v):
 
 
 def all_ops():
-    ops = [['first'], ['last'], ['distinct'], ['duc']]
+    ops = [['first'], ['last'], ['distinct'], ['duc'], ['distinct_km']]
     ops += [['take', n] for n in range(0, 7)]
     ops += [['lag', n] for n in range(0, 5)]
     ops += [['pad_start', n, v] for n in range(0, 4) for v in (None, 9)]
@@ -92,6 +121,14 @@ def build(op):
         return rs.ops.take(op[1])
     if k == 'distinct':
         return rs.ops.distinct()
+    if k == 'distinct_km':
+        # records are made on the fly by the stage in front (a parser): they only live while they travel through the pipeline
+        class _Row(object):
+            __slots__ = ('payload',)
+
+            def __init__(self, payload):
+                self.payload = payload
+        return rx.pipe(rs.ops.map(_Row), rs.ops.distinct(lambda r: r.payload), rs.ops.map(lambda r: r.payload))
     if k == 'duc':
         return rs.ops.distinct_until_changed()
     if k == 'lag':
@@ -120,7 +157,7 @@ def judge(op, xs, got, ctx):
         exp = xs[-1:]
     elif k == 'take':
         exp = xs[:op[1]]
-    elif k == 'distinct':
+    elif k in ('distinct', 'distinct_km'):
         exp = []
         for x in xs:
             if not any(x == e and type(x) is type(e) or (x == e) for e in exp):
@@ -155,8 +192,8 @@ def judge(op, xs, got, ctx):
 
 def nontrivial(op, xs):
     if op[0] == 'batch':
-        return len(xs) >= 1 and len(xs) % op[1] == 0 or (len(xs) >= 2 and (None in xs or len(set(map(repr, xs))) < len(xs)))
-    return len(xs) >= 2 and (None in xs or len(set(map(repr, xs))) < len(xs))
+        return len(xs) >= 1 and len(xs) % op[1] == 0 or (len(xs) >= 2 and (any(x is None for x in xs) or len(set(map(repr, xs))) < len(xs)))
+    return len(xs) >= 2 and (any(x is None for x in xs) or len(set(map(repr, xs))) < len(xs))
 
 
 # ------------------------------------------------------------------ plain
@@ -196,7 +233,7 @@ def big_batch_enum():
 @st.composite
 def seq_case(draw):
     op = draw(st.sampled_from(OPS))
-    pool = [VALUES, VALUES, VALUES, NUMERIC, XTYPE][draw(st.integers(0, 4))]
+    pool = [VALUES, VALUES, VALUES, NUMERIC, XTYPE, RECS][draw(st.integers(0, 5))]
     xs = draw(st.lists(st.sampled_from(pool), min_size=draw(st.sampled_from([0, 0, 2, 5])), max_size=12))
     return {'op': op, 'xs': xs}
 
@@ -233,7 +270,7 @@ def keyed_case(draw):
     if draw(st.booleans()):
         nk = draw(st.integers(1, 4))
         ks = draw(st.lists(st.integers(0, nk - 1), min_size=draw(st.sampled_from([1, 4, 8])), max_size=18))
-        vals = draw(st.lists(st.sampled_from([VALUES, VALUES, VALUES, NUMERIC, XTYPE][draw(st.integers(0, 4))]), min_size=len(ks), max_size=len(ks)))
+        vals = draw(st.lists(st.sampled_from([VALUES, VALUES, VALUES, NUMERIC, XTYPE, RECS][draw(st.integers(0, 5))]), min_size=len(ks), max_size=len(ks)))
         return {'op': op, 'driver': 'grouped', 'items': [[k, v] for k, v in zip(ks, vals)]}
     nl = draw(st.integers(1, 6))
     lifetimes = [[draw(st.sampled_from(c02.SLOTS)), draw(st.lists(st.sampled_from(VALUES), max_size=7))] for _ in range(nl)]
